@@ -153,6 +153,25 @@ func TestC09(t *testing.T) {
 			}
 		}
 
+		// two models decoded from one row own their values: writing through every pointer, slice
+		// and map of the first one changes neither the second one nor what the row decodes to next
+		scribbleThrough(target)
+		_, crow2, _ := w.RowFromModel(tb.Name, cm)
+		third := w.ModelFromRow(tb.Name, "sentinel-uuid", sentinel)
+		thinfo, _ := w.DBModel.NewModelInfo(third)
+		if err := mp.GetRowData(&back, thinfo); err != nil {
+			kit.Fail(t, "C09", "mapper.getrowdata", kase, "GetRowData of %s a second time: %v", text, err)
+		}
+		_, trow, _ := w.RowFromModel(tb.Name, third)
+		for _, c := range tb.Cols {
+			if !kit.EqVal(crow2[c.Name], row[c.Name]) {
+				kit.Fail(t, "C09", "mapper.shared-value", kase, "column %s: after writing through the fields of another model decoded from the same row, the model made by CreateModel holds %s, it held %s", c.Name, crow2[c.Name].Key(), row[c.Name].Key())
+			}
+			if !kit.EqVal(trow[c.Name], row[c.Name]) {
+				kit.Fail(t, "C09", "mapper.shared-value", kase, "column %s: after writing through the fields of an earlier decoded model, the row decodes to %s, want %s", c.Name, trow[c.Name].Key(), row[c.Name].Key())
+			}
+		}
+
 		// CreateModel from rows that list only some columns, or none at all (the update2 insert of
 		// a row whose columns all hold defaults): the uuid passed separately is the model's
 		// uuid, listed columns arrive, the others hold their defaults
@@ -407,5 +426,50 @@ func goodAtom(t kit.AT) interface{} {
 		return true
 	default:
 		return ovsdb.UUID{GoUUID: kit.MkUUID(1)}
+	}
+}
+
+// scribbleThrough writes through every pointer, slice element and map entry reachable from
+// the fields of a model (without replacing the pointers, slices and maps themselves).
+func scribbleThrough(m interface{}) {
+	v := reflect.ValueOf(m)
+	if v.Kind() == reflect.Ptr {
+		v = v.Elem()
+	}
+	var scribble func(x reflect.Value)
+	scribble = func(x reflect.Value) {
+		switch x.Kind() {
+		case reflect.Bool:
+			x.SetBool(!x.Bool())
+		case reflect.Int, reflect.Int64:
+			x.SetInt(x.Int() + 7)
+		case reflect.Float64:
+			x.SetFloat(x.Float() + 0.75)
+		case reflect.String:
+			x.SetString(x.String() + "~scribbled")
+		}
+	}
+	for i := 0; i < v.NumField(); i++ {
+		f := v.Field(i)
+		if !f.CanSet() {
+			continue
+		}
+		switch f.Kind() {
+		case reflect.Ptr:
+			if !f.IsNil() {
+				scribble(f.Elem())
+			}
+		case reflect.Slice:
+			for j := 0; j < f.Len(); j++ {
+				scribble(f.Index(j))
+			}
+		case reflect.Map:
+			for _, k := range f.MapKeys() {
+				nv := reflect.New(f.Type().Elem()).Elem()
+				nv.Set(f.MapIndex(k))
+				scribble(nv)
+				f.SetMapIndex(k, nv)
+			}
+		}
 	}
 }
